@@ -1,10 +1,15 @@
 (* C06 driver: one case per input line, one result line per case (formats: see props/C06.py).
-   argv[1] = cases, argv[2] = "-" (unused), argv[3] = variant: repaired | defective | def_adopt | def_aaa | def_auth *)
+   argv[1] = cases, argv[2] = "-" (unused), argv[3] = variant: repaired | defective | def_adopt | def_aaa | def_auth | lns_found | lns_adopt | lns_aaa | lns_always *)
+let fl5 a b c d e = { f_auth = a; f_adopt = b; f_aaa = c; f_keep = d; f_always = e }
 let flags_of = function
   | "defective" -> defective
-  | "def_auth" -> { f_auth = true; f_adopt = false; f_aaa = false }
-  | "def_adopt" -> { f_auth = false; f_adopt = true; f_aaa = false }
-  | "def_aaa" -> { f_auth = false; f_adopt = false; f_aaa = true }
+  | "def_auth" -> fl5 true false false false false
+  | "def_adopt" -> fl5 false true false true false
+  | "def_aaa" -> fl5 false false true false false
+  | "lns_found" -> lns_found
+  | "lns_adopt" -> fl5 false true false false false
+  | "lns_aaa" -> fl5 false false true false false
+  | "lns_always" -> fl5 false false false false true
   | _ -> repaired
 
 let hexs (l : n list) : string = String.concat "" (List.map (fun x -> Printf.sprintf "%02x" (int_of_n x)) l)
@@ -124,8 +129,17 @@ let () =
           let o = match r with Some r -> show_res ~sugg:true r | None -> "B=" ^ show_opts (v6_build s') in
           (o :: acc, s')) ([], s0) ops in
       print_endline (String.concat " | " (List.rev outs) ^ " ; P=" ^ hexs s.vo_peer)
-    | "sess" :: aaa :: evs ->
-      let s0 = sess_start fl (if aaa = "none" then None else Some (unhex aaa)) in
+    | (("sess" | "lns") as kind) :: start :: evs ->
+      (* <aaa>[/<alloc>[/<reserve>]]: aaa = none | hex; alloc = none | full | hex (pool allocation result);
+         reserve = ok | cf (ReserveIP of the session's address) *)
+      let ow = if kind = "lns" then LNS else PPPoE in
+      let split3 t = match String.split_on_char '/' t with
+        | [a] -> (a, "none", "ok") | [a; b] -> (a, b, "ok") | a :: b :: c :: _ -> (a, b, c) | [] -> ("none", "none", "ok") in
+      let orc_of al rs = { or_alloc = (if al = "none" || al = "full" then None else Some (unhex al));
+                           or_reserve_ok = (rs <> "cf") } in
+      let aaa_of a = if a = "none" then None else Some (unhex a) in
+      let (a0, al0, rs0) = split3 start in
+      let s0 = sess_start fl ow (aaa_of a0) (orc_of al0 rs0) in
       let first = (if int_of_n s0.s_fsm = 0 then "-" else "scr:" ^ show_opts s0.s_lastreq) ^ " a=" ^ show_addr s0.s_addr ^ " pa=" ^ show_addr s0.s_cfg.ic_assigned in
       let (outs, _) = List.fold_left (fun (acc, s) ev ->
           let tl = String.sub ev 1 (String.length ev - 1) in
@@ -133,7 +147,7 @@ let () =
             else if ev.[0] = 'a' then EvAckW (unhex tl)
             else if ev.[0] = 'n' then EvNak (unhex tl)
             else if ev.[0] = 'j' then EvRej (unhex tl)
-            else if ev.[0] = 'R' then EvReauth (if tl = "none" then None else Some (unhex tl))
+            else if ev.[0] = 'R' then (let (a, al, rs) = split3 tl in EvReauth (aaa_of a, orc_of al rs))
             else
               let i = String.index ev '.' in
               EvReq (n_of_int (int_of_string (String.sub ev 1 (i - 1))),
